@@ -498,12 +498,21 @@ theorem value_step (hw : T.WFInv) (nroot fuel : Nat) (IH : AllSpecs T nroot fuel
         intro r s ⟨h1, _, h2, hs⟩
         have hgood := Good_of_diags hg hs
         have hlen := Good_len hgood
-        refine pmono (IH.value r.2 _ s hgood.1 (by rw [hlen]; exact h2) ?_) ?_
-        · rw [hlen, BL_append]
-          exact ⟨hv, parseValue_seq_BL T hw _ t r.1 ht h1⟩
-        · intro a s' ⟨g, b1, b2⟩
-          rw [hlen] at b1 b2
-          exact ⟨Good_trans hgood g, b1, b2⟩
+        split
+        · -- no closing brace: the brace is an ordinary token of the value
+          refine pmono (IH.value (r.2.drop 1) _ s hgood.1
+            (by rw [hlen]; exact BL_sub h2 (List.drop_sublist 1 _)) ?_) ?_
+          · rw [hlen, BL_append]
+            exact ⟨hv, by simp only [BL_cons]; exact ⟨hb t (by simp), BL_nil⟩⟩
+          · intro a s' ⟨g, b1, b2⟩
+            rw [hlen] at b1 b2
+            exact ⟨Good_trans hgood g, b1, b2⟩
+        · refine pmono (IH.value r.2 _ s hgood.1 (by rw [hlen]; exact h2) ?_) ?_
+          · rw [hlen, BL_append]
+            exact ⟨hv, parseValue_seq_BL T hw _ t r.1 ht h1⟩
+          · intro a s' ⟨g, b1, b2⟩
+            rw [hlen] at b1 b2
+            exact ⟨Good_trans hgood g, b1, b2⟩
       · refine IH.value rest _ st hg ?_ ?_
         · exact fun x hx => hb x (by simp [hx])
         · rw [BL_append]; exact ⟨hv, by simp only [BL_cons]; exact ⟨hb t (by simp), BL_nil⟩⟩
